@@ -64,10 +64,13 @@ impl<'r> G<'r> {
                             // !foldl(init, list, acc, var, expr): acc and var live until the closing parenthesis
                             let acc = self.fresh("acc");
                             let var = self.fresh("e");
+                            // half of the folds run over strings: accumulator type (int) != element type (string)
+                            let over_str = self.rng.chance(1, 2);
+                            let elem = if over_str { Ty::Str } else { Ty::Int };
                             self.put("!foldl(");
                             self.value(&Ty::Int, depth + 1, position);
                             self.put(", ");
-                            self.value(&Ty::List(Box::new(Ty::Int)), depth + 1, position);
+                            self.value(&Ty::List(Box::new(elem.clone())), depth + 1, position);
                             self.put(", ");
                             self.ctx_stack.push("bang");
                             let da = self.decl_here(&acc, DeclKind::BangVar, vec![acc.clone()], None, false);
@@ -75,7 +78,7 @@ impl<'r> G<'r> {
                             let dv = self.decl_here(&var, DeclKind::BangVar, vec![var.clone()], None, false);
                             self.ctx_stack.pop();
                             self.put(", ");
-                            self.scopes.push(vec![VarInfo { name: acc.clone(), ty: Ty::Int, decl: da }, VarInfo { name: var.clone(), ty: Ty::Int, decl: dv }]);
+                            self.scopes.push(vec![VarInfo { name: acc.clone(), ty: Ty::Int, decl: da }, VarInfo { name: var.clone(), ty: elem.clone(), decl: dv }]);
                             let untyped = self.rng.chance(1, 3);
                             if untyped {
                                 self.put("!cond(true: ");
@@ -84,7 +87,12 @@ impl<'r> G<'r> {
                             self.put("!add(");
                             self.use_here(&acc, da, "bang-body");
                             self.put(", ");
-                            if self.rng.chance(1, 2) {
+                            if over_str {
+                                self.put("!size(");
+                                self.use_here(&var, dv, "bang-body");
+                                self.put(")");
+                                self.p.features.push("bang:foldl-acc-and-element-types-differ");
+                            } else if self.rng.chance(1, 2) {
                                 self.use_here(&var, dv, "bang-body");
                             } else {
                                 self.value(&Ty::Int, depth + 1, "bang-body");
